@@ -295,6 +295,6 @@ pub fn run(a: &Args) -> Report {
         }
     });
     rep.sample(json!({"grammar": "methods {GET,POST,PUT,OPTIONS,HEAD,CONNECT} x hosts {reg-names 1..63, IPv4, bracketed IPv6} x ports {absent,1,80,8080,65535} x paths {'', '/', '/a/b', '/a:b', '/x://y', '/p/'} x queries {'', '?a=b', '?u=http://h:1/', '?a?b', '?x=/'} (full product) + malformed variants + SOCKS5 (3 address types, unsupported commands/methods/versions)", "whole_requests": whole, "segmented_requests": total - whole, "oracle": "refimpl::http::expected_target (RFC 9112 request-target, RFC 3986 authority) / RFC 1928"}));
-    rep.extra.insert("exhaustive".into(), json!("the request-target grammar product is enumerated completely (whole delivery); every single cut position is enumerated for a sample of requests of each kind"));
+    rep.extra.insert("exhaustive_detail".into(), json!("the request-target grammar product is enumerated completely (whole delivery); every single cut position is enumerated for a sample of requests of each kind"));
     rep
 }
